@@ -95,16 +95,22 @@ func (c *ClusterNode) RPCSendShard(args *RPCSendShardRequest, reply *RPCSendShar
 			return fmt.Errorf("could not create shard directory: %w", err)
 		}
 	}
-	// Append to shard file, create if it doesn't exist
+	// Write the chunk at its position in the shard file, create the file if it
+	// doesn't exist. Chunks are not appended because a chunk can arrive more
+	// than once: the sender retries after a timeout while the first attempt
+	// may still be executed later, and an interrupted transfer starts again
+	// from the first chunk. Writing by position makes a repeated chunk
+	// harmless, appending it corrupted the file, possibly after the sender had
+	// verified the checksum and removed its copy.
 	// Does this generate a lot of syscalls? If so, we can switch to buffered
 	// writers but we need to keep track of the file descriptor across RPC
 	// calls. Let's see if this is a problem first, we can optimize later.
-	f, err := os.OpenFile(shardPath, os.O_APPEND|os.O_CREATE|os.O_WRONLY, 0644)
+	f, err := os.OpenFile(shardPath, os.O_CREATE|os.O_WRONLY, 0644)
 	if err != nil {
 		return fmt.Errorf("could not open shard file: %w", err)
 	}
 	defer f.Close()
-	n, err := f.Write(args.ChunkData)
+	n, err := f.WriteAt(args.ChunkData, int64(args.ChunkIndex)*int64(CHUNKSIZE))
 	if err != nil {
 		return fmt.Errorf("could not write shard file: %w", err)
 	}
